@@ -333,8 +333,11 @@ def write_evidence(mod, tier, seed, stats, wall, extra=None):
     }
     if extra:
         ev["coverage"].update(extra)
-    os.makedirs(os.path.join(VERIF, "evidence"), exist_ok=True)
-    path = os.path.join(VERIF, "evidence", f"{mod.ID}.json")
+    evdir = os.path.join(VERIF, "evidence")
+    if os.environ.get("VERIF_REPO"):  # sensitivity runs against a scratch tree never touch the committed evidence
+        evdir = os.path.join(tempfile.gettempdir(), "cryoverif_mutant_evidence")
+    os.makedirs(evdir, exist_ok=True)
+    path = os.path.join(evdir, f"{mod.ID}.json")
     with open(path + ".tmp", "w") as f:
         json.dump(ev, f, indent=1, default=str)
     os.replace(path + ".tmp", path)
@@ -435,13 +438,14 @@ def main(modname, tier, seed, replay=None, jobs=None):
             print(f"KNOWN-FINDING: property={pid} {e['what']} [signature {sig}, {stats.excluded_known[sig]} cases]")
     rc = 0
     if stats.buckets:
-        rdir = os.path.join(VERIF, "replays", pid)
+        rsub = "replays_mutant" if os.environ.get("VERIF_REPO") else "replays"
+        rdir = os.path.join(VERIF, rsub, pid)
         os.makedirs(rdir, exist_ok=True)
         for sig, b in sorted(stats.buckets.items()):
             path = b.get("path")
             if not path:
                 safe = "".join(ch if ch.isalnum() or ch in "-_." else "_" for ch in sig)[:80]
-                path = os.path.join("replays", pid, f"{safe}-{case_hash(b['case'])[:8]}.json")
+                path = os.path.join(rsub, pid, f"{safe}-{case_hash(b['case'])[:8]}.json")
                 with open(os.path.join(VERIF, path), "w") as f:
                     json.dump({"property": pid, "signature": sig, "detail": b["detail"], "case": b["case"]}, f, indent=1, default=str)
             print(f"  {sig} ({b['count']} cases{', shrunk' if b['shrunk'] else ''}): {b['detail']}")
